@@ -38,12 +38,14 @@ Proof.
 Qed.
 
 (* ---- silent runs ------------------------------------------------------------------ *)
-Lemma R_set p s ss e ty i d : R s ss ->
+Lemma R_set s ss e ty i (d : bool) : R s ss ->
   R (set_ents (if d then set_dead s (zadd e (dead s)) else s)
               (tset (ents (if d then set_dead s (zadd e (dead s)) else s)) e ty i))
     (upd ss (tset (att ss) e ty i) (if d then zadd e (pend ss) else pend ss) (bad ss)).
 Proof.
-  intros [H1 H2 H3 H4 H5]. destruct d; constructor; cbn; try congruence.
+  intros [H1 H2 H3 H4 H5].
+  destruct d; constructor; cbn [ents dead enabled procs set_ents set_dead att pend en prc bad upd];
+    try congruence.
   - intros x Hx T. rewrite towns_tset in T. apply orb_false_iff in T. destruct T as [N T].
     apply Z.eqb_neq in N. apply In_zadd in Hx. destruct Hx as [->|Hx]; [congruence|]. now apply H5.
   - intros x Hx T. rewrite towns_tset in T. apply orb_false_iff in T. destruct T as [N T]. now apply H5.
@@ -75,4 +77,96 @@ Proof.
       rewrite <- (R_prc _ _ HR). destruct (procs s); [|now apply IH].
       intros [= <- <-]. exists ss. auto.
     + intros [= <- <-]. exists ss. auto.
+Qed.
+
+(* ---- immediate effects of an operation ------------------------------------------------ *)
+Ltac rcbn := cbn [ents dead enabled procs queue set_ents set_dead set_enabled set_queue set_procs
+                  att pend en prc bad upd].
+
+Lemma R_tdel s ss e ty : R s ss ->
+  R (if towns (tdel (ents s) e ty) e then set_ents s (tdel (ents s) e ty)
+     else set_dead (set_ents s (tdel (ents s) e ty)) (zrem e (dead (set_ents s (tdel (ents s) e ty)))))
+    (upd ss (tdel (att ss) e ty)
+         (if towns (tdel (att ss) e ty) e then pend ss else zrem e (pend ss)) (bad ss)).
+Proof.
+  intros [H1 H2 H3 H4 H5]. rewrite <- H1.
+  destruct (towns (tdel (ents s) e ty) e) eqn:T; constructor; rcbn; try congruence.
+  - intros x Hx Tx. destruct (Z.eq_dec x e) as [->|N]; [congruence|].
+    rewrite towns_tdel_other in Tx by exact N. now apply H5.
+  - intros x Hx Tx. apply In_zrem in Hx. destruct Hx as [N Hx].
+    rewrite towns_tdel_other in Tx by exact N. now apply H5.
+Qed.
+
+Lemma R_adel s ss e : R s ss ->
+  R (set_dead (set_ents s (adel e (ents s))) (zrem e (dead s)))
+    (upd ss (adel e (att ss)) (zrem e (pend ss)) (bad ss)).
+Proof.
+  intros [H1 H2 H3 H4 H5]. constructor; rcbn; try congruence.
+  intros x Hx Tx. apply In_zrem in Hx. destruct Hx as [N Hx]. apply H5; [exact Hx|].
+  unfold towns in *. rewrite amem_adel in Tx. apply Z.eqb_neq in N. now rewrite N in Tx.
+Qed.
+
+Lemma R_mark s ss e : R s ss ->
+  R (set_dead s (zadd e (dead s)))
+    (upd ss (att ss) (zadd e (pend ss)) (if towns (att ss) e then bad ss else zadd e (bad ss))).
+Proof.
+  intros [H1 H2 H3 H4 H5]. rewrite <- H1. constructor; rcbn; try congruence.
+  intros x Hx Tx. apply In_zadd in Hx. destruct Hx as [->|Hx].
+  - rewrite Tx. apply In_zadd. now left.
+  - destruct (towns (ents s) e); [|apply In_zadd; right]; now apply H5.
+Qed.
+
+Lemma R_fold_tset (f : Z -> Z) s ss e comps : R s ss ->
+  R (set_ents s (fold_left (fun t i => tset t e (f i) i) comps (ents s)))
+    (upd ss (fold_left (fun t i => tset t e (f i) i) comps (att ss)) (pend ss) (bad ss)).
+Proof.
+  intros [H1 H2 H3 H4 H5]. constructor; rcbn; try congruence.
+  intros x Hx Tx. apply H5; [exact Hx|]. eapply mono_false; [|exact Tx]. apply towns_fold_tset.
+Qed.
+
+Lemma compile_sim p s ss a oret s1 ms :
+  R s ss -> compile p s a oret = Some (s1, ms) ->
+  exists ss1, compile5 p ss a oret = Some (ss1, pi ms) /\ R s1 ss1.
+Proof.
+  intros HR. assert (HE := R_ents _ _ HR). assert (HD := R_dead _ _ HR).
+  destruct a as [eid comps|e i|e ty|e imm| | |v|tok|]; cbn [compile compile5].
+  - (* Create *)
+    assert (X : forall e, exists ss1,
+       Some (upd ss (fold_left (fun t i => tset t e (ty_of p i) i) comps (att ss)) (pend ss) (bad ss),
+             flat_map (fun i => att5 p i e) comps ++ [MRet (Some e) 0])
+       = Some (ss1, pi (flat_map (fun i => att_micros p i e) comps ++ [MRet (Some e) 0]))
+       /\ R (set_ents s (fold_left (fun t i => tset t e (ty_of p i) i) comps (ents s))) ss1).
+    { intros e. eexists. split; [now rewrite pi_app, pi_atts|]. now apply R_fold_tset. }
+    destruct eid as [e|].
+    + intros [= <- <-]. apply X.
+    + destruct oret as [e|]; [|discriminate]. unfold towns. rewrite <- HE.
+      destruct (amem e (ents s)); [discriminate|]. intros [= <- <-]. apply X.
+  - (* Add *)
+    rewrite <- HE, <- HD. destruct (tget (ents s) e (ty_of p i)) as [old|].
+    + intros [= <- <-]. eexists. split.
+      * rewrite !pi_app, pi_rm, pi_att. cbn [pi flat_map pim app]. rewrite HE. reflexivity.
+      * rewrite <- HE, <- HD. apply (R_tdel s ss e (ty_of p i) HR).
+    + intros [= <- <-]. exists ss. split; [|exact HR].
+      rewrite !pi_app, pi_att. reflexivity.
+  - (* Remove *)
+    rewrite <- HE. destruct (tget (ents s) e ty) as [old|].
+    + intros [= <- <-]. eexists. split.
+      * rewrite pi_app, pi_rm. cbn [pi flat_map pim app]. rewrite HE. reflexivity.
+      * rewrite <- HE. apply (R_tdel s ss e ty HR).
+    + intros [= <- <-]. exists ss. auto.
+  - (* Delete *)
+    destruct imm.
+    + rewrite <- HE. destruct (alookup e (ents s)) as [r|].
+      * intros [= <- <-]. eexists. split.
+        -- rewrite pi_app, pi_row. cbn [pi flat_map pim app]. rewrite HE. reflexivity.
+        -- rewrite <- HE. now apply R_adel.
+      * intros [= <- <-]. exists ss. auto.
+    + intros [= <- <-]. eexists. split; [reflexivity|]. now apply R_mark.
+  - intros [= <- <-]. exists ss. auto.
+  - discriminate.
+  - destruct HR as [H1 H2 H3 H4 H5]. destruct v; intros [= <- <-]; eexists; (split; [reflexivity|]);
+      constructor; rcbn; auto.
+  - discriminate.
+  - destruct HR as [H1 H2 H3 H4 H5]. intros [= <- <-]. eexists. split; [reflexivity|].
+    constructor; rcbn; auto.
 Qed.
